@@ -16,12 +16,12 @@ CHECKS = {
     "C01": ("ENC", MC, "Bounded symbolic verdict per skeleton (mnemonic x register-operand form): for all register tuples of all widths, all 12 option combinations and arbitrary prior buffer contents the real pipeline from asm_assemble_str emits bytes the reference decoder reads back as exactly the written instruction. Not a proof: text is concrete per skeleton, loops are unwound with unwinding assertions.", ENC_NOTE, ENC_TECH, "5/C01"),
     "C02": ("ENC", MC, "Same engine per (memory-taking form x documented memory shape x scale x keyword): base/index over all 64/32-bit registers, displacement over its whole signed range, decoded effective address compared as a linear form with the written one; STRICT literal stack-pointer index accepted as documented.", ENC_NOTE, ENC_TECH, "5/C02"),
     "C03": ("ENC", MC, "Same engine per (immediate-taking form x destination kind x literal spelling): the value ranges over everything representable at the destination width; decoded immediate after sign/zero extension equals the written value; mov r64 judged by its architectural effect in all three modes.", ENC_NOTE, ENC_TECH, "5/C03"),
-    "C04": ("ENC", MC, "Same engine over every documented MMX/SSE/AVX/AVX2/BMI2/ADX register form: all register tuples, all options; the decoder checks mandatory prefix, map, VEX.L/W/vvvv and inverted R/X/B through the decoded operation and operands.", ENC_NOTE, ENC_TECH, "5/C04"),
+    "C04": ("ENC", MC, "Same engine over every documented MMX/SSE/AVX/AVX2/BMI2/ADX register form: all register tuples, all options; the decoder checks mandatory prefix, map, VEX.L/W/vvvv and inverted R/X/B through the decoded operation and operands; plus the vector/VEX forms with a memory operand on the shapes that exercise X, B and the index-to-base rewriting.", ENC_NOTE, ENC_TECH, "5/C04"),
     "C05": ("ENC", MC, "Same engine per (branch mnemonic x keyword x spelling): displacement symbolic over +-2^62; accepted => rel8/rel32 form of that operation with field == d; representable => accepted; short/rel8-only and out of range => rejected with no bytes; indirect and far forms through the C02 shapes.", ENC_NOTE, ENC_TECH, "5/C05"),
-    "C06": ("GLUE", MC, "API-layer verdict: programs of K abstract lines from an arbitrary start offset with arbitrary options and buffer contents give exactly the concatenation of the lines' signatures, and the same buffer when split at an arbitrary line boundary over two calls.", GLUE_NOTE, GLUE_TECH, "5/C06"),
+    "C06": ("GLUE", MC, "API-layer verdict: programs of K abstract lines from an arbitrary start offset with arbitrary options and buffer contents give exactly the concatenation of the lines' signatures, and the same buffer when split at an arbitrary line boundary over two calls. ENC context family: ordered pairs (concrete line of 8..14 encoding classes, skeleton line with symbolic registers/numbers/options) through the whole real pipeline in one call: the first line's bytes are those it yields alone and the second decodes as written (no encoder state survives a line).", GLUE_NOTE, GLUE_TECH, "5/C06"),
     "C07": ("GLUE", MC, "Histories of H arbitrary API calls (chunk size, offset, plain/fitting/counting assembly with failing lines, other instances) on a buffer of symbolic length: every instruction write is range-checked by the stub, NOP writes by buffer comparison, anything else by CBMC's pointer checks; 20-byte reserve rule asserted.", GLUE_NOTE, GLUE_TECH, "5/C07"),
-    "C08": ("GLUE+OS", MC, "Managed-buffer growth with the growth quantum scaled down: successive calls from arbitrary offsets in all three modes, mremap moving or not; offsets, per-instruction positions and counts equal a reference instance on a large caller buffer; mremap/munmap receive the live address and size; RWX protection.", OS_NOTE, GLUE_TECH + "; OS model", "5/C08"),
-    "C09": ("TOK+ENC", MC, "Memory safety and termination per unit: line filter on all byte strings <= 104, operand splitter with arbitrary operand characters, every scanner on arbitrary bounded strings at arbitrary buffer positions, and the encoder/emitter on well-formed skeletons, all with CBMC's pointer/bounds/overflow/shift checks and unwinding assertions.", TOK_NOTE, "CBMC bounded symbolic execution of each text-layer unit on arbitrary bounded strings with all memory-safety checks, SAT (CaDiCaL)", "5/C09"),
+    "C08": ("GLUE+OS", MC, "Managed-buffer growth with the growth quantum scaled down: successive calls from arbitrary offsets in all three modes, mremap moving or not; offsets, per-instruction positions and counts equal a reference instance on a large caller buffer; mremap/munmap/memcpy receive live addresses and sizes; every write goes to a live mapping; the byte at one nondeterministic offset (standing for every offset) is tracked through writes, moves and copies and equals the reference; RWX protection.", OS_NOTE, GLUE_TECH + "; OS model", "5/C08"),
+    "C09": ("TOK+ENC", MC, "Memory safety and termination per unit: line filter on all byte strings <= 104, operand splitter with arbitrary operand characters, every scanner on arbitrary bounded strings placed at the start and flush against the end of the line buffer, the mnemonic lookup for every possible first character, and the encoder/emitter on well-formed skeletons, all with CBMC's pointer/bounds/overflow/shift checks and unwinding assertions.", TOK_NOTE, "CBMC bounded symbolic execution of each text-layer unit on arbitrary bounded strings with all memory-safety checks, SAT (CaDiCaL)", "5/C09"),
     "C10": ("ENC+TOK+GLUE", MC, "Rejection: malformed skeletons through the whole pipeline must return EXIT_FAILURE and leave the buffer unchanged; every operand-kind string per mnemonic at the lookup level against nasm's verdicts; str_to_reg on every string <= 5 chars; non-printable bytes; failing line at any position in every mode.", ENC_NOTE + " " + TOK_NOTE, ENC_TECH, "5/C10"),
     "C11": ("ENC", MC, "mov r64, imm per spelling: which of the three encodings each mode selects, for every value; SIB swap / no-base shapes encoded as documented per option; non-interference: representative lines assembled on two instances under two arbitrary option combinations give identical bytes.", ENC_NOTE, ENC_TECH, "5/C11"),
     "C12": ("GLUE", MC, "One-step query from every documented option state x five setters x every 32-bit option value against the documented transition function, frame on a second instance, plus direct sequences; induction over the state gives sequences of any length.", "Oracle spec_next written from the documentation; option bits compared through the masks of /repo/src/common.h.", "CBMC bounded symbolic execution of the real setters, SAT", "5/C12"),
